@@ -45,3 +45,24 @@ Inductive kind := KRoute | KRouteTsr | KNoRoute | KNoMethod | KRedirect | KOptio
 
 (* per-route resolver option: not given (inherits the router's), given nil, given a resolver *)
 Inductive route_res := RInherit | RNil | RSet (r : resolution).
+
+(* the five handler scopes a router-wide middleware can be attached for *)
+Inductive hscope := SRoute | SNoRoute | SNoMethod | SRedirect | SOptions.
+Definition hscope_eqb (a b : hscope) : bool :=
+  match a, b with
+  | SRoute, SRoute | SNoRoute, SNoRoute | SNoMethod, SNoMethod | SRedirect, SRedirect | SOptions, SOptions => true
+  | _, _ => false
+  end.
+Definition scope_of (k : kind) : hscope :=
+  match k with
+  | KRoute | KRouteTsr => SRoute | KNoRoute => SNoRoute | KNoMethod => SNoMethod
+  | KRedirect => SRedirect | KOptions => SOptions
+  end.
+
+(* how a Logger instance is attached router-wide *)
+Inductive attach := AWithMiddleware | AWithMiddlewareFor (mask : list hscope).
+
+(* how the handler is reached: ServeHTTP; ServeHTTP to an alias route whose handler re-dispatches
+   to the target route with Route.HandleMiddleware / Route.Handle; Router.Lookup followed by
+   Route.HandleMiddleware / Route.Handle on the returned context *)
+Inductive dispatch := DServe | DAliasMiddleware | DAliasHandle | DLookupMiddleware | DLookupHandle.
